@@ -32,6 +32,9 @@ EVIDENCE = dict(
 )
 
 ENV_KEYS = ["TMUX", "TERM"]
+# other clone_with keyword arguments that leave the commands used here as they are (force_placeholders=True rewrites placements)
+CLONE_ARGS = [{"force_placeholders": False}, {"force_direct_transmission": False}, {"force_direct_transmission": True},
+              {"force_placeholders": False, "force_direct_transmission": True}]
 
 
 def _optb(v):
@@ -225,16 +228,33 @@ def check_case(ctx: Ctx, c: dict):
         ref = gt.GraphicsTerminal(out_command=ref_out, out_display=io.BytesIO(), in_response=io.BytesIO(), in_userinput=io.BytesIO(),
                                   num_tmux_layers=0, max_command_size=c.get("max"))
         cur = t
+        # the layer count the CALLER configured (never read back from the object): constructor argument, assigned value,
+        # clone_with argument (0 is a count; None keeps the parent's), detection = max(1, configured) exactly when the rule of
+        # the statement holds (Spec.TmuxUnwrap.detectSpec), else 0
+        intended = c["initial"]
+        hist = [str(c["initial"]), "none"]
         for step in c["steps"]:
             how = step["how"]
             if how == "assign":
                 cur.num_tmux_layers = step["n"]
+                intended = step["n"]
+                hist.append("alayers:%d" % step["n"])
             elif how == "detect":
                 with _env(step["tmux"], step["term"]):
                     cur.detect_tmux()
+                intended = max(1, intended) if d.ask(f"spec_detect {_optb(step['tmux'])} {_optb(step['term'])}") == "1" else 0
+                hist.append(f"detect:{_optb(step['tmux'])}:{_optb(step['term'])}")
             elif how == "clone":
-                cur = cur.clone_with(num_tmux_layers=step["n"])
-            n = cur.num_tmux_layers
+                cur = cur.clone_with(num_tmux_layers=step["n"], **(step.get("args") or {}))
+                if step["n"] is not None:
+                    intended = step["n"]
+                hist.append("clone:" + ("_" if step["n"] is None else str(step["n"])))
+            elif how != "same":
+                raise ValueError(how)
+            ctx.count("reconf:%s:%s" % (how, "to-0" if intended == 0 else "to-n"))
+            ctx.eq("num_tmux_layers of the object after " + how, dict(c, at=step), str(cur.num_tmux_layers),
+                   d.ask("termcfg " + " ".join(hist)).split(" ")[0])
+            n = intended
             desc = step["cmd"]
             data = data_bytes(desc.get("data"))
             pos, rpos = len(out.getvalue()), len(ref_out.getvalue())
@@ -436,10 +456,28 @@ def cases(ctx: Ctx):
                 st["cmd"]["data"] = None
             if how in ("assign", "clone"):
                 st["n"] = rng.randrange(0, 4)
+            if how == "clone":
+                if rng.random() < 0.25:
+                    st["n"] = None
+                if rng.random() < 0.5:
+                    st["args"] = rng.choice(CLONE_ARGS)
             if how == "detect":
                 st["tmux"], st["term"] = rng.choice([(None, "xterm"), ("/tmp/tmux-0/default,1,0", "tmux-256color"), ("/t,1,0", "screen"), ("", "tmux")])
             steps.append(st)
         yield {"k": "reconf", "initial": rng.randrange(0, 4), "max": rng.choice([None, None, 150, 400]), "steps": steps}
+    # every way of (re)configuring the count x every start count x every target count incl. 0: one command before, two after
+    def _cmd():
+        t = rng.choice(["T", "T", "P", "D"])
+        return {"type": t, "f": {"image_id": rng.randrange(1, 99)}, "data": {"len": rng.randrange(0, 300), "pat": "rand", "seed": rng.randrange(99)} if t == "T" else None}
+    envs = [(None, "xterm"), ("/tmp/tmux-0/default,1,0", "tmux-256color"), ("/t,1,0", "screen"), ("", "tmux"), ("x", "linux"), ("x", None)]
+    for a in range(0, 5):
+        changes = [{"how": h, "n": b} for h in ("assign", "clone") for b in range(0, 5)] + [{"how": "clone", "n": None}] + \
+                  [{"how": "clone", "n": b, "args": A} for b in (None, 0, 2) for A in CLONE_ARGS] + \
+                  [{"how": "detect", "tmux": tm, "term": te} for tm, te in envs]
+        for ch in changes:
+            yield {"k": "reconf", "initial": a, "max": rng.choice([None, 150, 400]),
+                   "steps": [dict({"how": "same"}, cmd=_cmd()), dict(ch, cmd=_cmd()),
+                             dict({"how": "clone", "n": None, "args": rng.choice([{}] + CLONE_ARGS)}, cmd=_cmd())]}
     for tm in tmuxes:
         for te in terms:
             for cur, cfg in ([(0, "auto"), (3, 2)] if not quick else [((0, "auto") if i % 3 else (2, 0))]):
@@ -459,7 +497,9 @@ def run(ctx: Ctx):
                 "0..4 layers (to_bytes); chunked transmissions for 8 header shapes x limits around the first accepted one x payload "
                 "lengths around the chunk size through n layers against 0 layers with the same payload budget; environment table "
                 "TMUX in {unset, empty, value} x 20 TERM values x configured layers through GraphicsTerminal.detect_tmux and a "
-                "pty-hosted TupimageTerminal. distinct = canonical JSON; non-trivial = n >= 1 layers (wrap), >= 2 chunks and n >= 1 "
+                "pty-hosted TupimageTerminal; send_command sequences with the layer count reconfigured in between (assignment, "
+                "detect_tmux, clone_with incl. 0 and None) from every start count to every target count, each emission judged against "
+                "the count the caller configured. distinct = canonical JSON; non-trivial = n >= 1 layers (wrap), >= 2 chunks and n >= 1 "
                 "(wrapsend), every environment row")
     c06.run_corpus(ctx, "C11", check_case)
     for c in cases(ctx):
